@@ -1,10 +1,11 @@
 import ZstdVerif.Model.BlockEnc
 import ZstdVerif.Model.Frame
+import ZstdVerif.Model.DictEnc
 import Driver.Util
 /-! `zvdriver blockenc` : the writer model of frames that contain COMPRESSED blocks (Model/BlockEnc.lean, `serializeFrame2`), to be
 decoded by the REAL decoder (tools/ent_block.py, harness/zvh_dec.c `dec`).
 
-One op:
+Two ops:
   `cframe <windowLog> <checksum 0|1> <blocks spec|-> <hex x|->`
      -> `<hex of serializeFrame2 a blocks x> rt=ok fse=<n> spreadOK=<b> spreadEncEqDec=<b> lit=<letters|->`
                                                                rt=ok when the decoder model (`Frame.decompressAll`, capacity x.size) gives x back,
@@ -15,6 +16,18 @@ One op:
         actually WROTE (its first byte & 3): `r` raw, `e` RLE, `h` Huffman with a direct tree description, `f` Huffman with an FSE-compressed
         tree description (first byte of the description < 128), `t` treeless; `-` = no compressed block
   HArgs = ⟨windowLog, x.size, contentSizeFlag = true, 0, false, checksum != 0, false⟩ (as `args` of Driver/Serialize.lean with csf = 1).
+
+  `cframed <windowLog> <checksum 0|1> <blocks spec|-> <hex x|-> <hex dictionary>`
+     the same for a frame written WITH A DICTIONARY whose entropy tables are on offer to the first blocks (Model/DictEnc.lean,
+     `serializeFrameDictTables`; theorem `Props.C08.dict_tables_roundtrip`): the dictionary bytes go through the decoder-side loader model
+     (`Dict.loadD`; `bad-dict` when it refuses them); the block loop starts from the dictionary's repeat offsets (`DictEnc.dictRep`), its
+     three sequence tables and its Huffman table (`DictEnc.dictStart`: a formatted dictionary; nothing for raw content), so `p` in the
+     first block with sequences stands for the DICTIONARY's table, and `t` in the first block with literals is treeless on the DICTIONARY's
+     Huffman table (when it has a code for every literal and the section gets smaller).  The header carries the dictionary's ID.
+     -> `<hex of serializeFrameDictTables d D a blocks x> rt=ok fse=<n> spreadOK=<b> spreadEncEqDec=<b> lit=<letters|-> dict=<full|raw> dtab=<b>`
+        rt=ok when `Frame.decompressAll` WITH THE LOADED DICTIONARY gives x back; dtab = the three tables of the dictionary satisfy what
+        the theorem asks of a repeated table (`BlockRT.TablesOK (dictTables p)`, evaluated: normalised distribution, 5 <= log <= limit, alphabet
+        within the limit, last count non-zero, the two spreading facts); `true` for a raw-content dictionary (no tables)
 
 `<blocks spec>` = blocks separated by `;` (`-` = no block at all).  Separators, from the outside in: ` ` (op fields), `;` (blocks),
 `:` (fields of a compressed block, and the three numbers of a sequence), `,` (sequences).  Per block:
@@ -239,7 +252,8 @@ def parseCompressed (x : ByteArray) (pos : Nat) (rep : Rep.R) (hp : Option HufTa
     | _, _, _, _ => none
   | _, _, _ => none
 
-def parseBlocks (x : ByteArray) (toks : List String) : Option (List BlockChoice2) :=
+def parseBlocks (x : ByteArray) (toks : List String) (rep0 : Rep.R := repStart) (hp0 : Option HufTab := none) :
+    Option (List BlockChoice2) :=
   let rec go (toks : List String) (pos : Nat) (rep : Rep.R) (hp : Option HufTab) (acc : List BlockChoice2) : Option (List BlockChoice2) :=
     match toks with
     | [] => some acc.reverse
@@ -256,16 +270,16 @@ def parseBlocks (x : ByteArray) (toks : List String) : Option (List BlockChoice2
           if t.startsWith "e" then go rest (pos + n) rep hp (.rle (UInt8.ofNat (x.u8 pos)) n :: acc)
           else if t.startsWith "r" then go rest (pos + n) rep hp (.raw n :: acc)
           else none
-  go toks 0 repStart none []
+  go toks 0 rep0 hp0 []
 
 /-- per compressed block the type of the literals section written, along the Huffman table `serializeBlocks2` threads -/
-def litReport (bs : List BlockChoice2) : String :=
+def litReport (bs : List BlockChoice2) (hp0 : Option HufTab := none) : String :=
   let rec go (bs : List BlockChoice2) (hp : Option HufTab) (acc : List Char) : List Char :=
     match bs with
     | [] => acc.reverse
     | .compressed c _ lits _ :: rest => go rest (nextHuf hp c lits) (litLetter c lits hp :: acc)
     | _ :: rest => go rest hp acc
-  let l := go bs none []
+  let l := go bs hp0 []
   " lit=" ++ (if l.isEmpty then "-" else String.ofList l)
 
 /-- the FSE-described tables of a frame, as (normalised counts, table log) -/
@@ -285,9 +299,25 @@ def spreadReport (bs : List BlockChoice2) : String :=
   let eq := ts.all fun (norm, log) => FSE.spreadEnc norm log == FSE.spread norm log
   s!" fse={ts.length} spreadOK={ok} spreadEncEqDec={eq}"
 
-def report (frame x : ByteArray) : String :=
+/-- `BlockRT.TableOK maxSym maxLog (.fse norm L)`, evaluated -/
+def tableOK (maxSym maxLog : Nat) (norm : Array Int) (L : Nat) : Bool :=
+  decide (1 ≤ L) && (List.range norm.size).all (fun s => decide (-1 ≤ norm[s]!)) &&
+    ((List.range norm.size).map (FSE.cnt norm)).foldl (· + ·) 0 == 1 <<< L &&
+    decide (5 ≤ L) && decide (L ≤ maxLog) && decide (norm.size ≤ maxSym + 1) && norm[norm.size - 1]! != 0 &&
+    FSE.spreadOK (FSE.spreadEnc norm L) norm L && FSE.spreadEnc norm L == FSE.spread norm L
+
+/-- `BlockRT.TablesOK` of the tables a dictionary stands for (limits of ZSTD_decodeSeqHeaders: MaxLL / LLFSELog, MaxOff / OffFSELog,
+MaxML / MLFSELog) -/
+def dictTablesReport (pt : Option Tables) : String :=
+  match pt with
+  | some ⟨.fse nl ll, .fse no lo, .fse nm lm⟩ =>
+    s!" dict=full dtab={tableOK Gen.MaxLL Gen.LLFSELog nl ll && tableOK Gen.MaxOff Gen.OffFSELog no lo && tableOK Gen.MaxML Gen.MLFSELog nm lm}"
+  | some _ => " dict=full dtab=false"
+  | none => " dict=raw dtab=true"
+
+def report (frame x : ByteArray) (dict : Frame.Dict := {}) : String :=
   let hex := if frame.size = 0 then "-" else frame.toHex
-  match Frame.decompressAll frame {} x.size {} with
+  match Frame.decompressAll frame dict x.size {} with
   | .ok (y, _) => hex ++ (if y.data == x.data then " rt=ok" else " rt=FAIL:DIFF")
   | .error e => hex ++ " rt=FAIL:" ++ e.cls
 
@@ -301,6 +331,19 @@ def step (_ : Unit) (ws : List String) : Unit × String :=
       let a : HeaderW.HArgs := ⟨wl, x.size, true, 0, false, ck != 0, false⟩
       ((), report (serializeFrame2 a bs x) x ++ spreadReport bs ++ litReport bs)
     | _, _, _ => ((), "bad-op")
+  | ["cframed", wl, ck, spec, hx, hd] =>
+    let x := hexArg hx
+    let d := hexArg hd
+    match Dict.loadD d with
+    | .error _ => ((), "bad-dict")
+    | .ok D =>
+      let st := DictEnc.dictStart d
+      let toks := if spec == "-" then [] else (spec.splitOn ";").filter (· ≠ "")
+      match wl.toNat?, ck.toNat?, parseBlocks x toks (DictEnc.dictRep D) st.2 with
+      | some wl, some ck, some bs =>
+        let a : HeaderW.HArgs := ⟨wl, x.size, true, D.id, false, ck != 0, false⟩
+        ((), report (DictEnc.serializeFrameDictTables d D a bs x) x D ++ spreadReport bs ++ litReport bs st.2 ++ dictTablesReport st.1)
+      | _, _, _ => ((), "bad-op")
   | _ => ((), "bad-op")
 
 def main : IO Unit := do
